@@ -117,6 +117,18 @@ CHECKS = {
        "'A-form χ is anti' is checked on the corpus.",
   technique="Lean 4 proof over ℝ (Complex.arg, ring identities, rigid-motion invariance) + exact-rational twin vs both real functions on constructed quadruples and corpus torsions",
   ref="9/C18"),
+ "C06": dict(
+  text="Lean theorems (Props.C06) about a model of Mapping2D3D on abstract nucleotides and pair records (duplicated, reversed, "
+       "dangling, multiplets): resolve_terminates, resolve_matching (≤ 1 partner), resolve_subset (only canonical input pairs), "
+       "resolve_keeps_unconflicted — for ANY victim choice inside a conflict group; numbering_ok ('?' placeholders exactly at detected "
+       "gaps, 1..N in file order), bpseq_valid, strands_concat, slices_concat, dot_bracket_faithful; extended rows: "
+       "ext_rows_balanced_len, ext_rows_greedy_rows_are_matchings, ext_rows_encode_each_once (every distinct input pair exactly once under "
+       "its class, with the row-allocation shape regenerated from the source and pinned by a bridge; the two-row variant is proved false "
+       "on a witness). Bridges: canonical test, both scoring copies and both gap-rule copies agree, connectivity threshold 1.5·1.6.",
+  note="Ties in the conflict-resolution sort that depend on Python set order are flagged by the model and compared by specification only; "
+       "the level choice of the per-strand dot-bracket comes from the MILP solver (relational, via C01/C02); Lean reasons about tokens.",
+  technique="Lean 4 proof (conflict-resolution loop invariant, numbering, row allocation) + functional/spec correspondence on corpus and synthetic structures × random pair lists",
+  ref="9/C06"),
 }
 
 NOT_YET = {}
